@@ -182,6 +182,50 @@ theorem C08_bar_fee_ops_init (K : Kern) (hK : KernAddOK K) (pool : Pool) (minErr
   obtain ⟨h1, h2⟩ := C08_bar_fee_ops K pool minError s k raw ops c hs (fun p hp => (hps p hp).1) (ne_of_gt hD)
   exact ⟨hD, hps, h1, h2⟩
 
+theorem Uni.c08r_calcAmounts_ok {cx : NumCtx} {pool : Pool} {row : Row} {p p' : Pos} {w : Rat}
+    (h : calcAmounts cx pool row p w = .ok p') (hp : PosOK p) : PosOK p' := by
+  unfold calcAmounts at h
+  split at h
+  · cases h
+  · cases h; exact hp
+
+theorem Uni.c08r_updateFee_ok {cx : NumCtx} {pool : Pool} {last : Option Int} {row : Row} {p p' : Pos}
+    (h : updateFee cx pool last row p = .ok p') (hp : PosOK p) : PosOK p' := by
+  unfold updateFee at h
+  split at h
+  · cases h; exact hp
+  · exact Uni.c08r_calcAmounts_ok h hp
+  · cases h
+  · simp only [] at h
+    split at h
+    · cases h
+    · exact Uni.c08r_calcAmounts_ok h hp
+
+theorem Uni.c08r_updateLoop_inv (cx : NumCtx) (pool : Pool) (last : Option Int) (row : Row) :
+    ∀ ps : List Pos, PosInv ps → PosInv (updateLoop cx pool last row ps).1
+  | [], _ => by intro q hq; cases hq
+  | p :: ps, hi => by
+    unfold updateLoop
+    split
+    · exact hi
+    · rename_i p' hp'
+      intro q hq
+      rcases List.mem_cons.mp hq with h | h
+      · rw [h]; exact Uni.c08r_updateFee_ok hp' (hi p (List.mem_cons_self ..))
+      · exact Uni.c08r_updateLoop_inv cx pool last row ps (fun x hx => hi x (List.mem_cons_of_mem _ hx)) q h
+
+/-- `update()` — in every arithmetic context, also when it raises half-way through the positions — changes pending
+    amounts only: ranges and liquidities stay what they were. -/
+theorem C08_update_preserves_range (cx : NumCtx) (pool : Pool) (s : State)
+    (h : ∀ p ∈ s.positions, p.lower < p.upper ∧ 0 ≤ p.liq) :
+    ∀ p ∈ (update cx pool s).1.positions, p.lower < p.upper ∧ 0 ≤ p.liq := by
+  unfold update
+  split
+  · exact h
+  · exact h
+  · rename_i hps _
+    exact Uni.c08r_updateLoop_inv cx pool s.lastTick _ _ h
+
 /-! ### (b) the whole run -/
 
 /-- `Actuator.run` on a fresh market (no status yet; positions, if any, well-formed): bar after bar `update()`
@@ -233,6 +277,75 @@ theorem C08_run_fees_ops (K : Kern) (hK : KernAddOK K) (pool : Pool) (minError :
 
 end Demeter
 
+/-! ### the same, bar by bar with an index -/
+namespace Demeter
+open Demeter.Uni
+
+theorem Uni.c08r_barStep_of_fees {pool : Pool} {k : Nat} {s : State} {c : Int} {b : Bar} (h : BarFees pool k s c b) :
+    (barStep NumCtx.exact pool (setStatus NumCtx.exact) s k b.raw b.pre b.post).2 = none := by
+  have h1 : (update NumCtx.exact pool (barPrep (setStatus NumCtx.exact) s k b.raw b.pre)).2 = none := h.1
+  unfold barStep; simp only []; rw [h1]
+
+/-- `RunFees` read at bar `i`: the state the bar starts from is the one the first `i` bars of the run produced,
+    the path starts at entry `i` of `c :: close(0) :: close(1) :: …`, i.e. at `c` for the first bar and at the
+    previous bar's close afterwards. -/
+theorem C08_run_fees_at (pool : Pool) : ∀ (bars : List Bar) (k : Nat) (s : State) (c : Int), RunFees pool k s c bars →
+    ∀ (i : Nat) (b : Bar) (prev : Int), bars[i]? = some b → (c :: bars.map (·.raw.closeTick))[i]? = some prev →
+      (runFrom NumCtx.exact pool (setStatus NumCtx.exact) k s (bars.take i)).2 = none ∧
+      BarFees pool (k + i) (runFrom NumCtx.exact pool (setStatus NumCtx.exact) k s (bars.take i)).1 prev b := by
+  intro bars
+  induction bars with
+  | nil => intro k s c _ i b prev hb; simp at hb
+  | cons b0 bs ih =>
+    intro k s c h i b prev hb hp
+    cases i with
+    | zero =>
+      simp only [List.getElem?_cons_zero, Option.some.injEq] at hb hp
+      subst hb; subst hp
+      exact ⟨rfl, h.1⟩
+    | succ j =>
+      simp only [List.getElem?_cons_succ, List.map_cons] at hb hp
+      have hnone := Uni.c08r_barStep_of_fees h.1
+      have hrun : runFrom NumCtx.exact pool (setStatus NumCtx.exact) k s ((b0 :: bs).take (j + 1)) =
+          runFrom NumCtx.exact pool (setStatus NumCtx.exact) (k + 1)
+            (barStep NumCtx.exact pool (setStatus NumCtx.exact) s k b0.raw b0.pre b0.post).1 (bs.take j) := by
+        rw [List.take_succ_cons]
+        conv => lhs; unfold runFrom
+        simp only []; rw [hnone]
+      have hk : k + (j + 1) = k + 1 + j := by omega
+      rw [hrun, hk]
+      exact ih (k + 1) _ b0.raw.closeTick h.2 j b prev hb hp
+
+/-- `C08_run_fees_ops`, bar `i`: in a run on a fresh market with arbitrary market operations in `initialize` and in every
+    bar, the first `i` bars complete without an exception and bar `i` pays, to every position present after its
+    operations, `feeInc (pathFraction prev close(i) lower upper) volume(i) decimals own (pool(i) + Σ own) feeRate`
+    with `prev = close(i−1)` (`close(0)` for `i = 0`): entry `i` of `close(0) :: close(0) :: close(1) :: …`. -/
+theorem C08_run_fees_ops_at (K : Kern) (hK : KernAddOK K) (pool : Pool) (minError : Rat) (s : State) (initOps : List Op)
+    (b0 : OpBar) (bs : List OpBar)
+    (hfresh : s.row = none ∧ s.ts = none) (hpos : ∀ p ∈ s.positions, p.lower < p.upper ∧ 0 ≤ p.liq)
+    (hrows : ∀ b ∈ b0 :: bs, 0 < b.raw.curLiq)
+    (i : Nat) (b : OpBar) (prev : Int) (hb : (b0 :: bs)[i]? = some b)
+    (hp : (b0.raw.closeTick :: (b0 :: bs).map (·.raw.closeTick))[i]? = some prev) :
+    let bars := (b0 :: bs).map (OpBar.toBar K pool minError)
+    let init := fun s => runOps K pool minError s initOps
+    let r := runFrom NumCtx.exact pool (setStatus NumCtx.exact) 0 (runStart (setStatus NumCtx.exact) s init bars) (bars.take i)
+    r.2 = none ∧ BarFees pool i r.1 prev (b.toBar K pool minError) := by
+  intro bars init r
+  have h := (C08_run_fees_ops K hK pool minError s initOps b0 bs hfresh hpos hrows).1
+  have hb' : bars[i]? = some (b.toBar K pool minError) := by
+    show ((b0 :: bs).map (OpBar.toBar K pool minError))[i]? = _
+    rw [List.getElem?_map, hb]; rfl
+  have hp' : (b0.raw.closeTick :: bars.map (·.raw.closeTick))[i]? = some prev := by
+    have : bars.map (·.raw.closeTick) = (b0 :: bs).map (·.raw.closeTick) := by
+      show ((b0 :: bs).map (OpBar.toBar K pool minError)).map _ = _
+      rw [List.map_map]; rfl
+    rw [this]; exact hp
+  have h2 := C08_run_fees_at pool bars 0 _ b0.raw.closeTick h i _ prev hb' hp'
+  rw [Nat.zero_add] at h2
+  exact h2
+
+end Demeter
+
 /-! ### non-vacuity -/
 namespace Demeter.Uni
 
@@ -246,9 +359,10 @@ def c08rExState : State :=
 
 /-- bar 0 closes at tick 5 (inside), bar 1 at tick 15 (above: half of the path 5 → 15 is inside); in bar 1 the
     strategy lends the position out before `update()` (it keeps earning) -/
-def c08rExBars : List OpBar :=
-  [⟨{ closeTick := 5, curLiq := 9000, in0 := 1000000, in1 := 2000000, price := 1 }, [], []⟩,
-   ⟨{ closeTick := 15, curLiq := 9000, in0 := 1000000, in1 := 2000000, price := 1 }, [Op.transferOut 0 10], []⟩]
+def c08rExBar0 : OpBar := ⟨{ closeTick := 5, curLiq := 9000, in0 := 1000000, in1 := 2000000, price := 1 }, [], []⟩
+def c08rExBar1 : OpBar :=
+  ⟨{ closeTick := 15, curLiq := 9000, in0 := 1000000, in1 := 2000000, price := 1 }, [Op.transferOut 0 10], []⟩
+def c08rExBars : List OpBar := [c08rExBar0, c08rExBar1]
 
 end Demeter.Uni
 
@@ -268,5 +382,15 @@ example :
         (c08rExBars.map (OpBar.toBar (Kern.std NumCtx.exact (fun x => x * x)) c08rExPool 0))).1.positions.map
       (fun p => (p.pending0, p.pending1, p.transferred))) = [(450, 900, true)] ∧
     feeInc (pathFraction 5 15 0 10) 1000000 0 1000 (9000 + 1000) (3 / 1000) = 150 := by decide +kernel
+
+/-- bar 1 of that run read through `C08_run_fees_ops_at`: bar 0 completed, and the path of bar 1 starts at 5 = close(0) -/
+example :
+    let K := Kern.std NumCtx.exact (fun x => x * x)
+    let bars := c08rExBars.map (OpBar.toBar K c08rExPool 0)
+    let r := runFrom NumCtx.exact c08rExPool (setStatus NumCtx.exact) 0
+      (runStart (setStatus NumCtx.exact) c08rExState (fun s => runOps K c08rExPool 0 s []) bars) (bars.take 1)
+    r.2 = none ∧ BarFees c08rExPool 1 r.1 5 (c08rExBar1.toBar K c08rExPool 0) :=
+  C08_run_fees_ops_at (Kern.std NumCtx.exact (fun x => x * x)) (C08_std_kernel_addOK _) c08rExPool 0 c08rExState []
+    c08rExBar0 [c08rExBar1] ⟨rfl, rfl⟩ (by decide) (by decide) 1 c08rExBar1 5 rfl rfl
 
 end Demeter
